@@ -33,6 +33,9 @@ pub struct H {
     pub time: i64,
     /// packs that were marked (listed in packs_to_delete) at some point and by which step
     pub ever_marked: BTreeMap<Id, usize>,
+    /// pack -> wall-clock second at (or before) which the harness itself saw the pack become marked; independent of
+    /// the time the index records for the mark. Time-travel plants move it together with the recorded time.
+    pub observed_mark: BTreeMap<Id, i64>,
 }
 
 pub fn setup(r: &mut Rng) -> Result<H, String> {
@@ -51,7 +54,7 @@ pub fn setup(r: &mut Rng) -> Result<H, String> {
     let key = MasterKey::new();
     let env = Env::single(uni.clone(), key.clone());
     env.init(&cfg, r)?;
-    Ok(H { cfg, key, uni, env, tp, model, snaps: BTreeMap::new(), time: 1_700_000_000, ever_marked: BTreeMap::new() })
+    Ok(H { cfg, key, uni, env, tp, model, snaps: BTreeMap::new(), time: 1_700_000_000, ever_marked: BTreeMap::new(), observed_mark: BTreeMap::new() })
 }
 
 impl H {
@@ -101,6 +104,8 @@ enum Plant {
     PackBothUsedAndMarked,
     UnreferencedPack,
     AgeMarkedPacks { deletable: bool },
+    /// the repository is older than keep-delete: every pack was created two days ago
+    AgeAllPacks,
     DuplicateBlobsAcrossPacks,
     TreeDataIdCollision,
 }
@@ -135,13 +140,18 @@ fn plant(h: &mut H, r: &mut Rng, p: &Plant) -> Result<bool, String> {
         Plant::PackBothUsedAndMarked => {
             let mut done = false;
             let ts = now_ts_string(-10);
+            let mut which = None;
             h.rewrite_indexes(r, &mut |files| {
                 if let Some(mut p) = files.iter().flat_map(|f| f.packs.iter()).next().cloned() {
                     p.time = Some(ts.clone());
+                    which = Some(p.id);
                     files.push(RawIndex { supersedes: None, packs: vec![], packs_to_delete: vec![p] });
                     done = true;
                 }
             })?;
+            if let Some(id) = which {
+                let _ = h.observed_mark.entry(id).or_insert(rustic_core::jiff::Timestamp::now().as_second() - 10);
+            }
             Ok(done)
         }
         Plant::UnreferencedPack => {
@@ -169,9 +179,28 @@ fn plant(h: &mut H, r: &mut Rng, p: &Plant) -> Result<bool, String> {
             // time travel: move the mark time of every marked pack to (now - 1h) -/+ a margin
             let ts = if *deletable { now_ts_string(-3600 - 120) } else { now_ts_string(-3600 + 600) };
             let mut done = false;
+            let mut ids = Vec::new();
             h.rewrite_indexes(r, &mut |files| {
                 for f in files.iter_mut() {
                     for p in &mut f.packs_to_delete {
+                        p.time = Some(ts.clone());
+                        ids.push(p.id);
+                        done = true;
+                    }
+                }
+            })?;
+            let t = ts.parse::<rustic_core::jiff::Timestamp>().map(|t| t.as_second()).unwrap_or(0);
+            for id in ids {
+                let _ = h.observed_mark.insert(id, t);
+            }
+            Ok(done)
+        }
+        Plant::AgeAllPacks => {
+            let ts = now_ts_string(-2 * 86_400);
+            let mut done = false;
+            h.rewrite_indexes(r, &mut |files| {
+                for f in files.iter_mut() {
+                    for p in &mut f.packs {
                         p.time = Some(ts.clone());
                         done = true;
                     }
@@ -286,10 +315,25 @@ fn history(_ctx: &Ctx, case: u64, r: &mut Rng, rep: &mut Report) {
     let mut log_desc: Vec<String> = Vec::new();
     let mut stale: Option<crate::repo::RepoIds> = None;
     let mut stale_model: Option<ModelTree> = None;
+    // 1 history in 3 plays in a repository that is older than keep-delete
+    let aged_repo = r.chance(1, 3);
+    let mut probe: Option<PruneSpec> = None;
     for step in 0..n {
         let cfg_desc = h.cfg.desc.clone();
         let detail = move |log_desc: &Vec<String>| json!({"config": cfg_desc, "history": log_desc});
-        let choice = if step < 2 { 0 } else { r.below(16) };
+        if step == 2 && aged_repo {
+            if let Ok(true) = plant(&mut h, r, &Plant::AgeAllPacks) {
+                log_desc.push("plant AgeAllPacks".to_string());
+                rep.set_add("anomalies_planted", "AgeAllPacks".to_string());
+            }
+        }
+        let choice = if step < 2 {
+            0
+        } else if probe.is_some() {
+            15
+        } else {
+            r.below(16)
+        };
         match choice {
             0..=4 => {
                 for _ in 0..r.range(0, 3) {
@@ -375,10 +419,18 @@ fn history(_ctx: &Ctx, case: u64, r: &mut Rng, rep: &mut Report) {
             }
             _ => {
                 // prune
-                let mut spec = PruneSpec::generate(r, h.cfg.version == 2);
-                if r.chance(1, 2) {
-                    spec.max_unused = Limit::Pct(0);
-                }
+                let is_probe = probe.is_some();
+                let mut spec = match probe.take() {
+                    Some(s) => s,
+                    None => {
+                        let mut spec = PruneSpec::generate(r, h.cfg.version == 2);
+                        if r.chance(1, 2) {
+                            spec.max_unused = Limit::Pct(0);
+                        }
+                        spec
+                    }
+                };
+                let _ = &mut spec;
                 // premise of the stale-index scenario: packs stay for longer than the slow backup takes.
                 // A prune that deletes at once (instant-delete, keep-delete 0) ends the scenario.
                 if spec.instant_delete || spec.keep_delete_h == 0 {
@@ -395,6 +447,7 @@ fn history(_ctx: &Ctx, case: u64, r: &mut Rng, rep: &mut Report) {
                 h.uni.clear_log();
                 let t_prune_start = rustic_core::jiff::Timestamp::now().as_second();
                 let res = cmd.run(&h.env);
+                let t_prune_end = rustic_core::jiff::Timestamp::now().as_second();
                 rep.evaluations += 1;
                 let log = h.uni.take_log();
                 rep.count("prune_storage_events", log.len() as u64);
@@ -435,14 +488,39 @@ fn history(_ctx: &Ctx, case: u64, r: &mut Rng, rep: &mut Report) {
                             }
                         }
                     }
+                    // the same judged against the harness's own observation of when the pack became marked
+                    if let Some(om) = h.observed_mark.get(pid) {
+                        rep.count("removals_judged_against_observed_mark_time", 1);
+                        if om + keep_delete_s > t_prune_end + 2 {
+                            rep.violation(
+                                case,
+                                "two-phase:removed-before-keep-delete-observed",
+                                format!("pack {pid} became marked for deletion no earlier than {om} (observed by the harness) and was removed by a prune that ended at {t_prune_end} although keep-delete is {} h; the index recorded the mark time {:?}", spec.keep_delete_h, marked_before.get(pid)),
+                                detail(&log_desc),
+                            );
+                        }
+                    }
                 }
                 if !removed.is_empty() {
                     rep.set_add("removal_kinds", if spec.instant_delete { "instant" } else { "aged-marked" });
                 }
                 let after = h.uni.state(0);
                 let marked_after = marked_packs(&rk, &after);
+                let mut newly_marked = 0;
                 for id in marked_after.keys() {
                     let _ = h.ever_marked.entry(*id).or_insert(step);
+                    if !marked_before.contains_key(id) {
+                        newly_marked += 1;
+                        let _ = h.observed_mark.insert(*id, t_prune_start);
+                    }
+                }
+                h.observed_mark.retain(|id, _| marked_after.contains_key(id));
+                // a second prune inside the keep-delete window must leave the packs that were just marked alone
+                if newly_marked > 0 && !is_probe && !spec.instant_delete && r.chance(1, 2) {
+                    let mut p = PruneSpec::default_safe();
+                    p.keep_delete_h = 1;
+                    probe = Some(p);
+                    rep.count("second_prune_inside_keep_delete_window", 1);
                 }
                 rep.count("packs_marked_seen", marked_after.len() as u64);
                 // (5) recover: after a successful prune no marked pack holds a blob that a snapshot needs and no unmarked pack provides
